@@ -15,6 +15,9 @@ Interpreter(True, False) and, after every operation, reads every name
 (`string(x)`) and compares with what the model's heap says that name reads.
 The names are reached as a variable (a), a function parameter (b), a slot of
 another container (outer[0]) and a variable captured by closures (c).
+Every non-mutating transition is additionally followed by each probe the model
+offers in its post-state (one documented mutation per container the result or
+the source reaches): an aliased result shows only after a later mutation.
 
 Binding B: every function found in the live base environment, in every bundled
 module and in the legacy base environment is applied to argument tuples from a
